@@ -181,46 +181,14 @@ func runC07(c *Ctx) {
 			n++
 			cons := fmt.Sprintf("IDFields path %d", n)
 			id := t.Params[0]
-			shiftOf := func(s *Sym) (linForm, bool) {
-				if s.Kind == KBin && s.Op == token.SHR && s.Args[0].Key() == id.Key() {
-					return lf(s.Args[1]), true
-				}
-				return linForm{}, false
-			}
-			maskWidth := func(m *Sym) (linForm, bool) {
-				// (1 << w) - 1, possibly folded
-				if v, isC := m.intConst(); isC && v > 0 && v&(v+1) == 0 {
-					w := 0
-					for x := v; x > 0; x >>= 1 {
-						w++
-					}
-					return lfConst(int64(w)), true
-				}
-				if m.Kind == KBin && m.Op == token.SUB {
-					if one, isC := m.Args[1].intConst(); isC && one == 1 && m.Args[0].Kind == KBin && m.Args[0].Op == token.SHL {
-						if b, isC := m.Args[0].Args[0].intConst(); isC && b == 1 {
-							return lf(m.Args[0].Args[1]), true
-						}
-					}
-				}
-				return linForm{}, false
-			}
-			tsF, okT := shiftOf(t.Ret[0])
-			field := func(s *Sym) (sh, w linForm, ok bool) {
-				if s.Kind != KBin || s.Op != token.AND {
-					return
-				}
-				for i := 0; i < 2; i++ {
-					if f, ok1 := shiftOf(s.Args[i]); ok1 {
-						if mw, ok2 := maskWidth(s.Args[1-i]); ok2 {
-							return f, mw, true
-						}
-					}
-				}
-				return
-			}
-			ns, nw, okN := field(t.Ret[1])
-			ss, sw, okS := field(t.Ret[2])
+			tf, okT := bitFieldOf(t.Ret[0], id.Key())
+			nf, okN := bitFieldOf(t.Ret[1], id.Key())
+			sf, okS := bitFieldOf(t.Ret[2], id.Key())
+			isZero := func(f linForm) bool { z, isC := f.isConst(); return isC && z.Sign() == 0 }
+			okT = okT && tf.unbounded && isZero(tf.pos)
+			okN = okN && !nf.unbounded && isZero(nf.pos)
+			okS = okS && !sf.unbounded && isZero(sf.pos)
+			tsF, ns, nw, ss, sw := tf.low, nf.low, nf.width, sf.low, sf.width
 			good := okT && okN && okS && tsF.equal(tsForm) && nw.equal(nForm) && sw.equal(lfConst(12))
 			if good {
 				nodeEnd, stepEnd := ns.add(nw, 1), ss.add(sw, 1)
@@ -245,7 +213,10 @@ func runC07(c *Ctx) {
 		if fn == nil {
 			continue
 		}
-		noTex := func(callee *ssa.Function, depth int) bool { return false }
+		noTex := func(callee *ssa.Function, depth int) bool {
+			// helpers of the package itself are entered (a shared range helper must not hide the shifts)
+			return depth <= 3 && c.fnInModule(callee) && callee.Pkg != nil && strings.HasSuffix(callee.Pkg.Pkg.Path(), "/"+rel)
+		}
 		traces, _ := c.Trace(fn, TraceConfig{Inline: noTex})
 		ok, nshift := true, 0
 		seen := map[string]bool{}
@@ -348,14 +319,10 @@ func runC07(c *Ctx) {
 					hi, mask = mask, hi
 				}
 				good = hi.Kind == KBin && hi.Op == token.SHL && lf(hi.Args[1]).equal(tsForm) && msOf(hi.Args[0], t.Params[maxP])
-				// mask = (1<<S)-1
+				// mask = the low N+12 bits, in any of the usual spellings
 				if good {
-					good = mask.Kind == KBin && mask.Op == token.SUB && mask.Args[0].Kind == KBin && mask.Args[0].Op == token.SHL && lf(mask.Args[0].Args[1]).equal(tsForm)
-					if good {
-						one, isC := mask.Args[1].intConst()
-						b, isB := mask.Args[0].Args[0].intConst()
-						good = isC && one == 1 && isB && b == 1
-					}
+					w, isM := lowMaskWidth(mask)
+					good = isM && w.equal(tsForm)
 				}
 			}
 			if !good && ok {
@@ -382,11 +349,15 @@ func (c *Ctx) checkDateForm(rel, E, LOC string, tsForm linForm) {
 		return
 	}
 	noInl := func(callee *ssa.Function, depth int) bool { return false }
+	// the encoder may be built from the package's own helpers (IDParse, a shared ms->time helper, ...): enter them
+	encInl := func(callee *ssa.Function, depth int) bool {
+		return depth <= 4 && c.fnInModule(callee) && callee.Pkg != nil && strings.HasSuffix(callee.Pkg.Pkg.Path(), "/"+rel)
+	}
 	// encoder widths from the Sprintf formats in order
 	var encW []int64
 	encOK := true
 	{
-		traces, _ := c.Trace(enc, TraceConfig{Inline: noInl})
+		traces, _ := c.Trace(enc, TraceConfig{Inline: encInl})
 		for _, t := range traces {
 			if t.End != EndReturn {
 				continue
@@ -395,12 +366,28 @@ func (c *Ctx) checkDateForm(rel, E, LOC string, tsForm linForm) {
 			usesLoc, usesEpoch, maskOK := false, false, false
 			for _, e := range t.Events {
 				if e.Kind == EvCall && e.callName() == "fmt.Sprintf" {
-					if f, ok := constStr(e.Args[0]); ok && strings.HasPrefix(f, "%0") && strings.HasSuffix(f, "d") {
+					// one or several zero-padded decimal verbs per format, nothing else
+					f, ok := constStr(e.Args[0])
+					rest := f
+					for ok && rest != "" {
 						var n int64
-						fmt.Sscanf(f[2:len(f)-1], "%d", &n)
+						if !strings.HasPrefix(rest, "%0") {
+							ok = false
+							break
+						}
+						j := 2
+						for j < len(rest) && rest[j] >= '0' && rest[j] <= '9' {
+							n = n*10 + int64(rest[j]-'0')
+							j++
+						}
+						if j == 2 || j >= len(rest) || rest[j] != 'd' {
+							ok = false
+							break
+						}
 						w = append(w, n)
-						// the last (low bits) argument is id & ((1<<S)-1)
-					} else {
+						rest = rest[j+1:]
+					}
+					if !ok {
 						encOK = false
 					}
 				}
@@ -426,10 +413,12 @@ func (c *Ctx) checkDateForm(rel, E, LOC string, tsForm linForm) {
 							continue
 						}
 						a.walk(func(x *Sym) {
-							if x.Kind == KBin && x.Op == token.AND && x.Args[0].Key() == t.Params[0].Key() {
-								m := x.Args[1]
-								if m.Kind == KBin && m.Op == token.SUB && m.Args[0].Kind == KBin && m.Args[0].Op == token.SHL && lf(m.Args[0].Args[1]).equal(tsForm) {
-									maskOK = true
+							// the remainder: the low N+12 bits of the id, in any spelling
+							if bf, isF := bitFieldOf(x, t.Params[0].Key()); isF && !bf.unbounded && bf.width.equal(tsForm) {
+								if z, isC := bf.low.isConst(); isC && z.Sign() == 0 {
+									if z2, isC2 := bf.pos.isConst(); isC2 && z2.Sign() == 0 {
+										maskOK = true
+									}
 								}
 							}
 						})
@@ -684,7 +673,10 @@ func (c *Ctx) checkIDParse(rel, E string) {
 		c.check(good && n > 0, "C07.fields", "IDParse", fn.Pos(), "IDFields(id) with the epoch added to the timestamp", "IDParse is not (IDFields(id).time + epoch, node, step): splitting with it and recombining no longer gives the id back")
 	}
 	if fn := c.mustFn(rel, "IDParseEx"); fn != nil {
-		ts, _ := c.Trace(fn, TraceConfig{Inline: noInl})
+		helpers := func(callee *ssa.Function, depth int) bool {
+			return depth <= 3 && c.fnInModule(callee) && callee.Pkg != nil && strings.HasSuffix(callee.Pkg.Pkg.Path(), "/"+rel) && callee.Name() != "IDParse" && callee.Name() != "IDFields"
+		}
+		ts, _ := c.Trace(fn, TraceConfig{Inline: helpers})
 		good, n := true, 0
 		for _, t := range ts {
 			if t.End != EndReturn || len(t.Ret) != 3 {
@@ -719,4 +711,117 @@ func (c *Ctx) checkIDParse(rel, E string) {
 func isIntConst(s *Sym, v int64) bool {
 	k, ok := s.intConst()
 	return ok && k == v
+}
+
+// lowMaskWidth: m is a mask of the w lowest bits, written in any of the usual ways: a constant 2^w-1,
+// (1<<w)-1, ^(-1<<w) (also with the -1 typed). Returns w as a linear form.
+func lowMaskWidth(m *Sym) (linForm, bool) {
+	for m.Kind == KConv && m.Name == "convert" {
+		m = m.Args[0]
+	}
+	if v, isC := m.intConst(); isC && v > 0 && v&(v+1) == 0 {
+		w := 0
+		for x := v; x > 0; x >>= 1 {
+			w++
+		}
+		return lfConst(int64(w)), true
+	}
+	if m.Kind == KBin && m.Op == token.SUB {
+		if isIntConst(m.Args[1], 1) && m.Args[0].Kind == KBin && m.Args[0].Op == token.SHL && isIntConst(m.Args[0].Args[0], 1) {
+			return lf(m.Args[0].Args[1]), true
+		}
+	}
+	if m.Kind == KUn && m.Op == token.XOR {
+		x := m.Args[0]
+		for x.Kind == KConv && x.Name == "convert" {
+			x = x.Args[0]
+		}
+		if x.Kind == KBin && x.Op == token.SHL && isIntConst(x.Args[0].strip(), -1) {
+			return lf(x.Args[1]), true
+		}
+	}
+	return linForm{}, false
+}
+
+// bitField normalises an expression over `id` built from shifts and low-bit masks into
+// ((id >> low) & mask(width)) << pos ; unbounded = no mask applied (all bits above low).
+type bitField struct {
+	low, width, pos linForm
+	unbounded       bool
+}
+
+func bitFieldOf(s *Sym, idKey string) (bitField, bool) {
+	zero := lfConst(0)
+	for s.Kind == KConv && s.Name == "convert" {
+		s = s.Args[0]
+	}
+	if s.Key() == idKey {
+		return bitField{low: zero, pos: zero, unbounded: true}, true
+	}
+	if s.Kind != KBin {
+		return bitField{}, false
+	}
+	switch s.Op {
+	case token.SHR:
+		x, ok := bitFieldOf(s.Args[0], idKey)
+		if !ok {
+			return bitField{}, false
+		}
+		sh := lf(s.Args[1])
+		if x.pos.equal(sh) { // in-place field shifted down
+			x.pos = zero
+			return x, true
+		}
+		if z, isC := x.pos.isConst(); isC && z.Sign() == 0 {
+			x.low = x.low.add(sh, 1)
+			if !x.unbounded {
+				x.width = x.width.add(sh, -1)
+			}
+			return x, true
+		}
+	case token.SHL:
+		x, ok := bitFieldOf(s.Args[0], idKey)
+		if !ok {
+			return bitField{}, false
+		}
+		x.pos = x.pos.add(lf(s.Args[1]), 1)
+		return x, true
+	case token.AND, token.AND_NOT:
+		for i := 0; i < 2; i++ {
+			x, ok := bitFieldOf(s.Args[i], idKey)
+			if !ok {
+				continue
+			}
+			m := s.Args[1-i]
+			if s.Op == token.AND_NOT {
+				if i != 0 {
+					continue
+				}
+				// id &^ (-1 << w)  ==  id & ^(-1 << w)
+				m = &Sym{Kind: KUn, Op: token.XOR, Args: []*Sym{m}}
+			}
+			if w, isM := lowMaskWidth(m); isM && x.unbounded {
+				if z, isC := x.pos.isConst(); isC && z.Sign() == 0 {
+					x.width, x.unbounded = w, false
+					return x, true
+				}
+			}
+			// mask shifted into place: id & (mask(w) << p)
+			mm := m
+			for mm.Kind == KConv && mm.Name == "convert" {
+				mm = mm.Args[0]
+			}
+			if mm.Kind == KBin && mm.Op == token.SHL && x.unbounded {
+				if w, isM := lowMaskWidth(mm.Args[0]); isM {
+					if z, isC := x.pos.isConst(); isC && z.Sign() == 0 {
+						if l0, isC0 := x.low.isConst(); isC0 && l0.Sign() == 0 {
+							p := lf(mm.Args[1])
+							return bitField{low: p, width: w, pos: p}, true
+						}
+					}
+				}
+			}
+		}
+	}
+	return bitField{}, false
 }
